@@ -17,7 +17,9 @@ RULE = ("single-language sets of 1-4 cues with distinct increasing times; each c
         "by each of the 7 text writers and parsed by the independent parser of the format "
         "(strict XML via lxml for the three DFXP writers, html.parser for SAMI, own WebVTT / "
         "SRT / MicroDVD grammars). Non-trivial: the cue text contains a metacharacter atom or "
-        "an empty line. '|' is not generated for MicroDVD.")
+        "an empty line. '|' is not generated for MicroDVD. "
+        "Also: empty lines in the form of a blank text node (' ', '', U+00A0) between two "
+        'breaks, and a writer object that has written another set before. ')
 ASSUMPTIONS = [
     "a line split into several text nodes is compared with all whitespace removed (writers "
     "differ, legitimately, in whether they join text nodes with a space)",
